@@ -781,6 +781,30 @@ pub fn verif_encode_padded(
     res
 }
 
+/// Runs the real `Chunk::encode` on `{t:<spec>}` (`message == false`) or `{m:<spec>}`
+/// (`message == true`), with the chunk built on the stack: the formatter's text then comes
+/// from the record (target: one write; message: one write per format piece).
+#[cfg(log4rs_verif)]
+#[doc(hidden)]
+pub fn verif_encode_field(
+    w: &mut dyn encode::Write,
+    record: &Record,
+    message: bool,
+    spec: VerifSpec,
+) -> io::Result<()> {
+    let chunk = Chunk::Formatted {
+        chunk: if message {
+            FormattedChunk::Message
+        } else {
+            FormattedChunk::Target
+        },
+        params: spec.params(),
+    };
+    let res = chunk.encode(w, record);
+    std::mem::forget(chunk);
+    res
+}
+
 /// A deserializer for the `PatternEncoder`.
 ///
 /// # Configuration
